@@ -52,7 +52,8 @@ KDATA = {
     "small": [[0.0, 0.0], [0.125, 0.5], [0.5, 0.125], [0.375, 0.375], [0.75, 0.5], [0.625, 0.75], [0.25, 0.125]],
 }
 KLIN = [("rot90", [[0, -1], [1, 0]]), ("rot180", [[-1, 0], [0, -1]]), ("rot270", [[0, 1], [-1, 0]]), ("sim45", [[1, -1], [1, 1]]),
-        ("scale_up", [[2.0**10, 0], [0, 2.0**10]]), ("scale_down", [[2.0**-10, 0], [0, 2.0**-10]]), ("flip", [[1, 0], [0, -1]])]
+        ("scale_up", [[2.0**10, 0], [0, 2.0**10]]), ("scale_down", [[2.0**-10, 0], [0, 2.0**-10]]), ("flip", [[1, 0], [0, -1]]),
+        ("scale_tiny", [[2.0**-22, 0], [0, 2.0**-22]])]
 
 
 def cases(tier, seed):
